@@ -519,6 +519,31 @@ func c20Gauges(p *Prog, l *Ledger) {
 						}
 					}
 				}
+				// the queue-size gauge reports the number of queued callers: when it is bound to a method of the backlog (the type
+				// that holds the list), that method must pass the proof C12/O2 applies to the accessor of the admission bound -
+				// list.Len() itself or a counter proved to mirror it (stepped only with the list, once per element), read under
+				// the queue mutex. A second, unproved counter drifts when a give-up coincides with a hand-off.
+				if idc, ok := strip(c.Args[0], false).(*ssa.Const); ok && idc.Value != nil && idc.Value.Kind() == constant.String {
+					if tp := p.TPkgs["core"]; tp != nil {
+						if mq, ok := tp.Scope().Lookup("MetricQueueSize").(*types.Const); ok && mq.Val().Kind() == constant.String && constant.StringVal(idc.Value) == constant.StringVal(mq.Val()) && m.Signature.Recv() != nil {
+							if bt := derefNamed(m.Signature.Recv().Type()); bt != nil {
+								if bs, ok := bt.Underlying().(*types.Struct); ok {
+									for j := 0; j < bs.NumFields(); j++ {
+										if !isListPtr(bs.Field(j).Type()) {
+											continue
+										}
+										bad, okLen := c12SizeProof(p, p.Locksets(), bt, FieldRef{bt, j, bs.Field(j).Name()}, m)
+										if len(bad) > 0 || !okLen {
+											l.Bad("O3", key, p.At(ins), "the queue-size gauge does not report the number of queued callers: "+strings.Join(append(bad, "read by "+p.Key(m)), "; "))
+											return
+										}
+										detail += "; reports the length of the backlog's list, read under the queue mutex"
+									}
+								}
+							}
+						}
+					}
+				}
 				if pk == "strategy" && isLimitGauge {
 					if why := c20ReadsEnforcedLimit(p, m); why != "" {
 						l.Bad("O3", key, p.At(ins), "the limit gauge does not report the enforced limit: "+why)
